@@ -24,7 +24,7 @@ ASSUMPTIONS = [
     'own-grid clause is bit-equality; foreign points must lie between the two neighbouring native values (equal to the end value outside the native range)',
 ]
 RULE = RULE + ' ' + 'Also: observation layouts with unequal spacing of the bin centres (widest implied bin at the low or the high end).'
-REQUIRED = {'obs:widest-low': 0.02, 'obs:widest-high': 0.02, 'opacity:ktables': 0.15, 'grids:tie-for-largest': 0.04, 'obs:constant-R-wide': 0.08, 'grids:multi': 0.35, 'grids:single': 0.15, 'family:emission': 0.2, 'family:transmission': 0.2}
+REQUIRED = {'full-run-broke-off-then-repeated': 0.3, 'obs:widest-low': 0.02, 'obs:widest-high': 0.02, 'opacity:ktables': 0.15, 'grids:tie-for-largest': 0.04, 'obs:constant-R-wide': 0.08, 'grids:multi': 0.35, 'grids:single': 0.15, 'family:emission': 0.2, 'family:transmission': 0.2}
 
 
 @st.composite
@@ -226,6 +226,34 @@ def check(case):
                     k = int(np.argmax(np.abs(bd - bf)))
                     out.fail('request-order@%s' % family, 'descending request: bin %d of %d: %r vs %r (max rel %.2e)'
                              % (k, nb, bd[k], bf[k], maxrel(bd, bf)))
+    except CutError:
+        pass
+    # ---- history: after the restricted runs, a full run that breaks off (an interpolation mode that does not exist is
+    # in force; the caller catches the error and puts the mode back), then the full run again on the same model
+    try:
+        from taurex.cache.ktablecache import KTableCache
+        from taurex.cache import OpacityCache as _OC
+        cache = KTableCache() if w.get('ktables') else _OC()
+        ops_ = [cache[mol] for mol in grids]
+        if ops_:
+            for op_ in ops_:
+                op_.set_interpolation_mode('cubic')
+            broke = False
+            try:
+                with np.errstate(all='ignore'):
+                    m.model()
+            except Exception:
+                broke = True
+            for op_ in ops_:
+                op_.set_interpolation_mode('linear')
+            if broke:
+                out.cls('full-run-broke-off-then-repeated')
+                out.applies('full-after-broken-run')
+                with np.errstate(all='ignore'):
+                    r9 = cut(out, 'model@after-broken-run', m.model)
+                if not np.array_equal(np.asarray(r9[0]), native) or not close(r9[1], fspec, rtol=1e-12, atol=0):
+                    out.fail('full-after-broken-run@' + family, 'the full run after a broken-off one differs from the first full run (max rel %.2e)'
+                             % maxrel(r9[1], fspec))
     except CutError:
         pass
 
